@@ -30,6 +30,8 @@ type c3Ref struct {
 	P int `json:"p"`
 	// Args: indexes into Paths for generic arguments / literal components
 	Args []int `json:"args,omitempty"`
+	// Nested: the last argument of a generic reference is itself an instantiation G<a>[T<a>] (depth 2)
+	Nested bool `json:"nested,omitempty"`
 }
 
 type c3Case struct {
@@ -116,6 +118,7 @@ func genC03Tracker(t *rapid.T) c3Case {
 			for j := 0; j < k; j++ {
 				r.Args = append(r.Args, rapid.IntRange(0, len(c.Paths)-1).Draw(t, "arg"))
 			}
+			r.Nested = strings.HasPrefix(r.Kind, "generic") && rapid.Bool().Draw(t, "nested")
 		}
 		c.Refs = append(c.Refs, r)
 	}
@@ -145,6 +148,11 @@ func (c c3Case) build(r c3Ref) (snippet.Snippet, []int) {
 		for j, a := range r.Args {
 			if j > 0 {
 				b.WriteByte(',')
+			}
+			if r.Nested && j == len(r.Args)-1 {
+				fmt.Fprintf(&b, "%s.G%d[%s.%s]", c.Paths[a], a, c.Paths[r.P], tname(r.P))
+				used = append(used, a, r.P)
+				continue
 			}
 			b.WriteString(c.Paths[a] + "." + tname(a))
 			used = append(used, a)
